@@ -1,18 +1,26 @@
 """C10 — per-simulant clocks: nobody is skipped, nobody is updated early.
 
-Tie: differential correspondence. A real `SimulationContext` (driven by `run()`) or `InteractiveContext`
-(driven by `step()` / `take_steps(n)`) with a `DateTimeClock`, one probe component that registers 1–3
-scripted step-size modifiers (`builder.time.register_step_size_modifier`), issues scripted move-to-end
-requests (`builder.time.move_simulants_to_end()`) and births from its listeners, and logs for every
-main-loop event `event.index`, `clock()`, `step_size()`, `event.time`, `event.step_size` and the
-`simulant_next_event_times` / `simulant_step_sizes` of the whole population. The same operations go to
-`Driver/C10.lean` (model `Viv.Clock`); every logged number is compared exactly. Time unit = 1 hour (all
-inputs are whole hours, so pandas' nanosecond arithmetic and the float division of the post-processor
-are exact).
+Tie: differential correspondence. A real `SimulationContext` (driven by `run()`, `run(backup_path, backup_freq)`
+or `run_simulation()`) or `InteractiveContext` (driven by `step()`, `step(step_size)`, `take_steps(n[, step_size])`,
+`run_until`, `run_for`, `run`) with a `DateTimeClock`; one or two probe components register 0–3 scripted
+step-size modifiers (through `builder.time.register_step_size_modifier` with / without keywords or through
+`builder.value.register_value_modifier("simulant_step_size")`; lambdas, bound methods, callable objects,
+partials; Series that are complete / NaT-filled / partial / permuted / a superset of the request), issue scripted
+move-to-end requests (`builder.time.move_simulants_to_end()`; index sorted / reversed / RangeIndex / object /
+float dtype), births, untracking and re-tracking from their listeners, and log for every main-loop event
+`event.index`, `clock()`, `step_size()`, `event.time`, `event.step_size` and the `simulant_next_event_times` /
+`simulant_step_sizes` of the WHOLE population (untracked simulants included). The same operations go to
+`Driver/C10.lean` (model `Viv.Clock`); every logged number is compared exactly. Time unit = 1 hour (all inputs are
+whole hours, so pandas' nanosecond arithmetic and the float division of the post-processor are exact).
+Without any modifier (`mods == []`) the clock has no per-simulant columns; that mode is covered for the
+DateTimeClock and the SimpleClock (unit = 1 tick).
 
 Per-simulant clocks only exist with a DateTimeClock: the step-size pipeline's source is a
 `timedelta64[ns]` NaT series, so a SimpleClock with a numeric modifier dies in `pd.DataFrame(values)`
 (DTypePromotionError) – see notes/agent-reports/C10.md.
+
+The oracle takes every expectation from the CASE (configured start / end / minimum / standard step, the
+modifier script, the requests), never from values read back from the clock.
 """
 from __future__ import annotations
 
@@ -26,7 +34,6 @@ PHASES = ["time_step__prepare", "time_step", "time_step__cleanup", "collect_metr
 T0 = (2020, 1, 1)
 HOUR_NS = 3_600_000_000_000
 MAX_ITERS = 60      # no generated schedule needs more than ~60 iterations; a clock that stops advancing is cut off here
-
 
 class IterationLimit(Exception):
     pass
@@ -42,7 +49,7 @@ def mod_value(mod, sim: int, it: int):
 
 
 def rule_step(case, sim: int, it: int) -> int:
-    """the property's own rule for a simulant's step (hours)"""
+    """the property's own rule for a simulant's step (hours), from the configured minimum / standard step"""
     mn = case["min"]
     std = case["std"] if case["std"] else mn
     vals = [v for v in (mod_value(m, sim, it) for m in case["mods"]) if v is not None]
@@ -50,17 +57,55 @@ def rule_step(case, sim: int, it: int) -> int:
     return max(mn, (want // mn) * mn)
 
 
+def act_opts(a):
+    return a[3] if len(a) > 3 and isinstance(a[3], dict) else {}
+
+
 def acts_of(case, k: int, phase: int):
-    return [a for a in case["acts"].get(str(k), []) if a[0] == phase]
+    """actions of (iteration, phase) in execution order: the first probe's listener runs before the second's"""
+    lst = [a for a in case["acts"].get(str(k), []) if a[0] == phase]
+    return sorted(lst, key=lambda a: act_opts(a).get("by", 0))
 
 
-def _days(x):
+def is_simple(case):
+    return case.get("clock", "datetime") == "simple"
+
+
+def unit(case):
+    """ticks per configured day (DateTimeClock: hours) or per configured unit (SimpleClock)"""
+    return 1 if is_simple(case) else 24
+
+
+def start_tick(case):
+    return unit(case) * case.get("start_day", 0)
+
+
+def stop_tick(case):
+    return start_tick(case) + unit(case) * case["days"]
+
+
+def _days(x, as_float=False):
     """hours -> the number the configuration takes (days; exact dyadic)"""
-    return x // 24 if x % 24 == 0 else x / 24
+    if x % 24 == 0:
+        return float(x // 24) if as_float else x // 24
+    return x / 24
+
+
+def interactive_cmds(case):
+    """the interactive drive as (commands, finish_with_default_steps, extra_steps, chunk) – None for engine drives"""
+    d = case["drive"]
+    if d[0] == "step":
+        return [], True, d[1], 1
+    if d[0] == "take":
+        return [], True, 0, d[1]
+    if d[0] == "prog":
+        return d[1], bool(d[2]), 0, 1
+    return None
 
 
 # ---------------------------------------------------------------------------------------------- run
-def _hours(x):
+def _tick(x):
+    import numpy as np
     import pandas as pd
     if x is None or x is pd.NaT:
         return "NaT"
@@ -68,6 +113,12 @@ def _hours(x):
         ns = (x - pd.Timestamp(*T0)).value
     elif isinstance(x, pd.Timedelta):
         ns = x.value
+    elif isinstance(x, (int, np.integer)) and not isinstance(x, bool):
+        return int(x)
+    elif isinstance(x, (float, np.floating)):
+        if x != x:
+            return "NaT"
+        return int(x) if float(x).is_integer() else f"f:{float(x)!r}"
     else:
         try:
             if pd.isna(x):
@@ -79,34 +130,120 @@ def _hours(x):
     return ns // HOUR_NS if ns % HOUR_NS == 0 else f"ns:{ns}"
 
 
-def _run(case):
-    impl.load()
-    import pandas as pd
-    from vivarium import Component, InteractiveContext
-    from vivarium.framework.engine import SimulationContext
+class _CallObj:
+    def __init__(self, f):
+        self.f = f
 
-    class Drv(Component):
+    def __call__(self, index):
+        return self.f(index)
+
+
+class _Holder:
+    def __init__(self, f):
+        self.f = f
+
+    def modify(self, index):
+        return self.f(index)
+
+
+def _mk_index(ids, kind):
+    import pandas as pd
+    if kind == "rev":
+        return pd.Index(list(reversed(ids)), dtype="int64")
+    if kind == "range" and ids and ids == list(range(ids[0], ids[-1] + 1)):
+        return pd.RangeIndex(ids[0], ids[-1] + 1)
+    if kind == "object":
+        return pd.Index(list(ids), dtype=object)
+    if kind == "float" and ids:
+        return pd.Index([float(i) for i in ids], dtype="float64")
+    return pd.Index(ids, dtype="int64")
+
+
+def _config(case):
+    simple = is_simple(case)
+    if simple:
+        time = {"start": start_tick(case), "end": stop_tick(case), "step_size": case["min"],
+                "standard_step_size": case["std"]}
+    else:
+        y, m, dd = T0
+        s = datetime.date(y, m, dd) + datetime.timedelta(days=case.get("start_day", 0))
+        e = s + datetime.timedelta(days=case["days"])
+        fl = bool(case.get("float_cfg"))
+        time = {"start": {"year": s.year, "month": s.month, "day": s.day},
+                "end": {"year": e.year, "month": e.month, "day": e.day},
+                "step_size": _days(case["min"], fl),
+                "standard_step_size": (None if case["std"] is None else _days(case["std"], fl))}
+    cfg = {"population": {"population_size": case["pop"]}, "time": time}
+    kw = {}
+    if simple:
+        kw["plugin_configuration"] = {"required": {"clock": {"controller": "vivarium.framework.time.SimpleClock",
+                                                              "builder_interface": "vivarium.framework.time.TimeInterface"}}}
+    return cfg, kw
+
+
+def _build(case):
+    """the probe components for one simulation of `case`"""
+    impl.load()
+    import functools
+
+    import pandas as pd
+    from vivarium import Component
+
+    simple = is_simple(case)
+
+    def dur(v):
+        return v if simple else pd.Timedelta(hours=v)
+
+    class Probe(Component):
         def __init__(self):
             super().__init__()
             self.it = 0            # main-loop iteration in progress (0 = before the loop)
             self.n = 0             # simulants created so far
             self.states = []       # snapshot at the start of every iteration
             self.iters = []        # per iteration: list of event records
+            self.meta = []         # per iteration: explicit step size / command index
             self.created = []
+            self.cur_explicit = None
+            self.cur_cmd = None
+            self.keep = []         # keeps callable objects alive
 
         @property
         def name(self):
             return "c10_probe"
 
+        def register(self, b, owner):
+            for m, spec in enumerate(case["mods"]):
+                if spec.get("owner", 0) != owner:
+                    continue
+                base = lambda idx, m=m: self.mod(m, idx)        # noqa: E731
+                fn = spec.get("fn", "lambda")
+                if fn == "method":
+                    h = _Holder(base)
+                    self.keep.append(h)
+                    f = h.modify
+                elif fn == "obj":
+                    f = _CallObj(base)
+                elif fn == "partial":
+                    f = functools.partial(Probe.mod, self, m)
+                else:
+                    f = base
+                via = spec.get("via", "time")
+                if via == "value":
+                    b.value.register_value_modifier("simulant_step_size", f)
+                elif via == "time_kw":
+                    b.time.register_step_size_modifier(f, requires_columns=["tracked"], requires_values=[], requires_streams=[])
+                else:
+                    b.time.register_step_size_modifier(f)
+
         def setup(self, b):
-            for m in range(len(case["mods"])):
-                b.time.register_step_size_modifier(lambda idx, m=m: self.mod(m, idx))
+            self.register(b, 0)
             self.clock = b.time.clock()
             self.ss = b.time.step_size()
             self.net = b.time.simulant_next_event_times()
             self.sss = b.time.simulant_step_sizes()
             self.mte = b.time.move_simulants_to_end()
             self.creator = b.population.get_simulant_creator()
+            self.view = b.population.get_view(["tracked"])
 
         def on_initialize_simulants(self, pop_data):
             self.n += len(pop_data.index)
@@ -114,26 +251,46 @@ def _run(case):
 
         def mod(self, m, idx):
             spec = case["mods"][m]
-            vals = {int(i): mod_value(spec, int(i), self.it) for i in idx}
-            if spec.get("style") == "omit":       # uncovered simulants are simply not in the returned Series
-                keep = [i for i in idx if vals[int(i)] is not None]
-                return pd.Series([pd.Timedelta(hours=vals[int(i)]) for i in keep],
-                                 index=pd.Index(keep, dtype="int64"), dtype="timedelta64[ns]")
-            return pd.Series([pd.NaT if vals[int(i)] is None else pd.Timedelta(hours=vals[int(i)]) for i in idx],
-                             index=idx, dtype="timedelta64[ns]")
+            style = spec.get("style", "nan")
+            labels = [int(i) for i in idx]
+            if style == "superset":       # answers for more simulants than it was asked about
+                labels = list(range(max(labels + [self.n - 1]) + 3))
+            vals = {i: mod_value(spec, i, self.it) for i in labels}
+            if style == "omit":           # uncovered simulants are simply not in the returned Series
+                labels = [i for i in labels if vals[i] is not None]
+            elif style == "perm":         # rows in another order than the request
+                labels = labels[::-1]
+            return pd.Series([pd.NaT if vals[i] is None else pd.Timedelta(hours=vals[i]) for i in labels],
+                             index=pd.Index(labels, dtype="int64"), dtype="timedelta64[ns]")
 
         def everybody(self):
             return pd.Index(range(self.n), dtype="int64")
 
         def table(self):
             idx = self.everybody()
-            net, sss = self.net(idx), self.sss(idx)
-            return [[int(i), _hours(net.loc[i]), _hours(sss.loc[i])] for i in idx]
+            ask = idx[::-1] if self.it % 2 else idx            # the observers are asked in either order, read by label
+            net, sss = self.net(ask), self.sss(ask)
+            return [[int(i), _tick(net.loc[i]), _tick(sss.loc[i])] for i in idx]
 
         def snapshot(self, clock_obj):
             snooze = getattr(clock_obj, "_simulants_to_snooze", None)       # private: compared only when it exists
-            return {"now": _hours(clock_obj._clock_time), "step": _hours(clock_obj._clock_step_size), "sims": self.table(),
+            return {"now": _tick(clock_obj._clock_time), "step": _tick(clock_obj._clock_step_size), "sims": self.table(),
                     "pending": None if snooze is None else sorted(int(i) for i in snooze)}
+
+        def perform(self, rec, p, by):
+            for a in acts_of(case, self.it, p):
+                o = act_opts(a)
+                if o.get("by", 0) != by:
+                    continue
+                if a[1] == "mte":
+                    self.mte(_mk_index(a[2], o.get("kind", "sorted")))
+                    rec["acts"].append(["mte", a[2]])
+                elif a[1] == "birth":
+                    new = self.creator(a[2])
+                    rec["acts"].append(["birth", sorted(int(i) for i in new)])
+                else:
+                    self.view.update(pd.Series(a[1] == "retrack", index=pd.Index(a[2], dtype="int64"), name="tracked"))
+                    rec["acts"].append([a[1], a[2]])
 
         def _phase(self, p, e):
             if p == 0:
@@ -142,17 +299,14 @@ def _run(case):
                 self.states.append(self.snapshot(self._clock_obj))
                 self.it += 1
                 self.iters.append([])
-            rec = {"now": _hours(self.clock()), "step": _hours(self.ss()), "time": _hours(e.time),
-                   "estep": _hours(e.step_size), "index": sorted(int(i) for i in e.index),
-                   "net": [r[1] for r in self.table()], "acts": []}
+                self.meta.append({"explicit": self.cur_explicit, "cmd": self.cur_cmd})
+            tracked = self.view.get(self.everybody())["tracked"]
+            rec = {"now": _tick(self.clock()), "step": _tick(self.ss()), "time": _tick(e.time),
+                   "estep": _tick(e.step_size), "index": sorted(int(i) for i in e.index),
+                   "net": [r[1] for r in self.table()], "untracked": [int(i) for i in tracked.index[~tracked.astype(bool)]],
+                   "acts": []}
             self.iters[-1].append(rec)
-            for a in acts_of(case, self.it, p):
-                if a[1] == "mte":
-                    self.mte(pd.Index(a[2], dtype="int64"))
-                    rec["acts"].append(["mte", a[2]])
-                else:
-                    new = self.creator(a[2])
-                    rec["acts"].append(["birth", sorted(int(i) for i in new)])
+            self.perform(rec, p, 0)
 
         def on_time_step_prepare(self, e):
             self._phase(0, e)
@@ -166,48 +320,181 @@ def _run(case):
         def on_collect_metrics(self, e):
             self._phase(3, e)
 
-    d = Drv()
-    y, m, dd = T0
-    end = datetime.date(y, m, dd) + datetime.timedelta(days=case["days"])
-    cfg = {"population": {"population_size": case["pop"]},
-           "time": {"start": {"year": y, "month": m, "day": dd},
-                    "end": {"year": end.year, "month": end.month, "day": end.day},
-                    "step_size": _days(case["min"]),
-                    "standard_step_size": (_days(case["std"]) if case["std"] else None)}}
+    class Second(Component):
+        """registers its own modifiers and acts through the handles the first probe obtained"""
+
+        def __init__(self, first):
+            super().__init__()
+            self.first = first
+
+        @property
+        def name(self):
+            return "c10_second"
+
+        def setup(self, b):
+            self.first.register(b, 1)
+
+        def _do(self, p):
+            if self.first.iters and len(self.first.iters[-1]) > p:
+                self.first.perform(self.first.iters[-1][p], p, 1)
+
+        def on_time_step_prepare(self, e):
+            self._do(0)
+
+        def on_time_step(self, e):
+            self._do(1)
+
+        def on_time_step_cleanup(self, e):
+            self._do(2)
+
+        def on_collect_metrics(self, e):
+            self._do(3)
+
+    d = Probe()
+    comps = [d]
+    if any(m.get("owner", 0) == 1 for m in case["mods"]) or any(act_opts(a).get("by") == 1 for l in case["acts"].values() for a in l):
+        comps.append(Second(d))
+    return d, comps, dur
+
+
+PRIOR = {"drive": ["run"], "min": 48, "std": 96, "days": 8, "pop": 4, "mods": [{"rows": [[48, 144, None, 96]], "style": "nan"}],
+         "acts": {"1": [[1, "mte", [3]]], "2": [[2, "birth", 1]]}}
+
+
+def _run_prior():
+    """an earlier, different simulation in the same process that ends with a pending move-to-end request"""
+    import pandas as pd
+    from vivarium.framework.engine import SimulationContext
+    d, comps, _ = _build(PRIOR)
+    cfg, kw = _config(PRIOR)
     SimulationContext._clear_context_cache()
-    out = {"outcome": "ok", "init": None, "states": None, "iters": None, "final": None}
-    drive = case["drive"]
+    sim = SimulationContext(components=comps, configuration=cfg, logging_verbosity=0, **kw)
+    d._clock_obj = sim._clock
+    sim.setup()
+    sim.initialize_simulants()
+    sim.run()
+    d.mte(pd.Index([0, 1], dtype="int64"))
+
+
+def _run(case, twin_of=None):
+    impl.load()
+    import os
+    import shutil
+    import tempfile
+
+    import pandas as pd
+    from vivarium import InteractiveContext
+    from vivarium.framework.engine import SimulationContext
+
+    if case.get("prior") and twin_of is None:
+        try:
+            _run_prior()
+        except Exception as e:  # noqa: BLE001 - the earlier simulation is a legal program too
+            if type(e).__name__ == "CaseTimeout":
+                raise
+            return {"outcome": "err:" + type(e).__name__, "err_msg": "in the earlier simulation of the same process: " + str(e)[:150],
+                    "init": None, "states": [], "iters": [], "final": None, "cmds": [], "meta": []}
+    d, comps, dur = _build(case)
+    cfg, kw = _config(case)
+    simple = is_simple(case)
+
+    def at(t):
+        return t if simple else pd.Timestamp(*T0) + pd.Timedelta(hours=t)
+
+    SimulationContext._clear_context_cache()
+    out = {"outcome": "ok", "init": None, "states": None, "iters": None, "final": None, "cmds": []}
+    drive = case["drive"] if twin_of is None else ["run"]
+    prog = interactive_cmds(case) if twin_of is None else None
+    tmp = None
     try:
-        if drive[0] == "run":
-            sim = SimulationContext(components=[d], configuration=cfg, logging_verbosity=0)
+        if prog is None:
+            sim = SimulationContext(components=comps, configuration=cfg, logging_verbosity=0, **kw)
             d._clock_obj = sim._clock
-            sim.setup()
-            sim.initialize_simulants()
+            if drive[0] != "run_simulation":
+                sim.setup()
+                sim.initialize_simulants()
+                out["init"] = d.snapshot(sim._clock)
         else:
-            sim = InteractiveContext(components=[d], configuration=cfg, logging_verbosity=0, setup=False)
+            sim = InteractiveContext(components=comps, configuration=cfg, logging_verbosity=0, setup=False, **kw)
             d._clock_obj = sim._clock
             sim.setup()
-        out["init"] = d.snapshot(sim._clock)
-        stop = sim._clock.stop_time
+            out["init"] = d.snapshot(sim._clock)
+        stop = sim._clock.stop_time if drive[0] != "run_simulation" else None
         if drive[0] == "run":
             sim.run()
-        elif drive[0] == "step":
-            while sim.current_time < stop and d.it < MAX_ITERS:
-                sim.step()
-            for _ in range(drive[1]):          # steps past the end of the simulation
-                sim.step()
+        elif drive[0] == "run_backup":
+            tmp = tempfile.mkdtemp(prefix="c10bk")
+            sim.run(backup_path=os.path.join(tmp, "backup.pkl"), backup_freq=10 ** 9)
+        elif drive[0] == "run_simulation":
+            sim.run_simulation()
         else:
-            while sim.current_time < stop and d.it < MAX_ITERS:
-                sim.take_steps(drive[1])
+            cmds, finish, extra, chunk = prog
+
+            def do(cmd):
+                d.cur_cmd = len(out["cmds"])
+                d.cur_explicit = None
+                log = {"cmd": cmd, "first": d.it + 1, "now_before": _tick(sim._clock._clock_time),
+                       "step_before": _tick(sim._clock._clock_step_size), "ret": None}
+                out["cmds"].append(log)
+                try:
+                    if cmd[0] == "step":
+                        d.cur_explicit = cmd[1]
+                        if cmd[1] is None:
+                            sim.step()
+                        elif len(cmd) > 2 and cmd[2] == "kw":
+                            sim.step(step_size=dur(cmd[1]))
+                        else:
+                            sim.step(dur(cmd[1]))
+                    elif cmd[0] == "take":
+                        d.cur_explicit = cmd[2]
+                        if cmd[2] is None:
+                            sim.take_steps(cmd[1])
+                        else:
+                            sim.take_steps(number_of_steps=cmd[1], step_size=dur(cmd[2]), with_logging=False)
+                    elif cmd[0] == "until":
+                        log["ret"] = sim.run_until(at(cmd[1]))
+                    elif cmd[0] == "for":
+                        log["ret"] = sim.run_for(dur(cmd[1]), with_logging=False)
+                    else:
+                        log["ret"] = sim.run()
+                finally:
+                    d.cur_explicit = None
+                    log["n"] = d.it + 1 - log["first"]
+                    log["now_after"] = _tick(sim._clock._clock_time)
+                    if log["ret"] is not None:
+                        log["ret"] = int(log["ret"])
+
+            for cmd in cmds:
+                do(cmd)
+            if finish:
+                while sim.current_time < stop and d.it < MAX_ITERS + 1:
+                    do(["take", chunk, None] if chunk > 1 else ["step", None])
+            for _ in range(extra):          # steps past the end of the simulation
+                do(["step", None])
     except Exception as e:  # noqa: BLE001 - outcome class of the implementation
+        if type(e).__name__ == "CaseTimeout":      # the runner's watchdog, not an outcome of the implementation
+            raise
         out["outcome"] = "err:" + type(e).__name__
         out["err_msg"] = str(e)[:200]
-    out["states"], out["iters"], out["created"] = d.states, d.iters, d.created
+    finally:
+        if tmp:
+            shutil.rmtree(tmp, ignore_errors=True)
+    out["states"], out["iters"], out["created"], out["meta"] = d.states, d.iters, d.created, d.meta
     try:
         out["final"] = d.snapshot(sim._clock)
     except Exception as e:  # noqa: BLE001
         out["final"] = {"error": type(e).__name__}
-    out["stop"] = 24 * case["days"]
+    if out["init"] is None and drive[0] == "run_simulation" and out["outcome"] == "ok":
+        out["init"] = d.states[0] if d.states else out["final"]      # nothing changes between initialize_simulants and the first event
+    if case.get("twin") and twin_of is None:
+        try:
+            t = _run(case, twin_of=True)
+            out["twin"] = {"outcome": t["outcome"], "init": t["init"],
+                           "iters": [[[e["now"], e["time"], e["index"]] for e in evs] for evs in t["iters"]]}
+        except Exception as e:  # noqa: BLE001
+            if type(e).__name__ == "CaseTimeout":
+                raise
+            out["twin"] = {"outcome": "err:" + type(e).__name__, "iters": []}
     return out
 
 
@@ -220,16 +507,16 @@ class C10(Prop):
     technique = ("Lean 4 proof (invariant J over every schedule of modifier outputs, births and move-to-end requests; "
                  "post-processor arithmetic) + differential correspondence with the real SimulationContext / "
                  "InteractiveContext + DateTimeClock (exact event logs and per-simulant clock columns)")
-    partial = ("pandas alignment / nanosecond and float arithmetic of the real post-processor, untracked simulants, "
-               "explicit step sizes passed to InteractiveContext.step and the SimpleClock are explored by the harness "
-               "or out of scope, not proved")
-    n_quick = 170
+    partial = ("pandas alignment / nanosecond and float arithmetic of the real post-processor and the `tracked` column "
+               "(the clocks ignore it) are explored by the harness, not proved; SimpleClock only without modifiers")
+    n_quick = 200
     n_thorough = 3000
     workers = 8
-    case_timeout = 30
-    rule = ("cases = random clock configurations x populations x modifier scripts x listener action schedules, driven "
-            "by run() / step() / take_steps(); distinct by case hash; non-trivial = at least two events with different "
-            "index sets or a global step different from the minimum step")
+    case_timeout = 120        # wall-clock alarm; a normal case takes 0.05–0.3 s, the probe cuts runaway clocks off itself
+    rule = ("cases = random clock configurations x populations x modifier scripts (registration route, callable kind, "
+            "Series shape) x listener action schedules (move-to-end, births, untracking; two components), driven by every "
+            "engine / interactive API incl. explicit step sizes; distinct by case hash; non-trivial = at least two events "
+            "with different index sets or a global step different from the minimum step, or a mode without modifiers")
 
     # ------------------------------------------------------------------ generation
     def boundary(self):
@@ -238,6 +525,7 @@ class C10(Prop):
                     "mods": [{"rows": [[48, 72, 96]], "style": "nan"}], "acts": {}}
             base.update(kw)
             return base
+        m23 = [{"rows": [[48, 72]], "style": "nan"}]
         out = [
             # the single simulant 0 (F1) on every driving API
             case(pop=1, mods=[{"rows": [[72]], "style": "nan"}]),
@@ -250,9 +538,9 @@ class C10(Prop):
             case(pop=3, acts={"2": [[0, "mte", [0, 1, 2]]]}),
             case(pop=3, acts={"1": [[3, "mte", []]], "2": [[2, "mte", [2]], [2, "mte", [2, 0]]]}),
             # interactive stepping vs run (F3), chunks overrunning the end, steps past the end
-            case(pop=2, mods=[{"rows": [[48, 72]], "style": "nan"}], drive=["step", 0]),
-            case(pop=2, mods=[{"rows": [[48, 72]], "style": "nan"}], drive=["take", 3]),
-            case(pop=2, mods=[{"rows": [[48, 72]], "style": "nan"}], drive=["step", 2], acts={"2": [[1, "mte", [1]]]}),
+            case(pop=2, mods=m23, drive=["step", 0], twin=True),
+            case(pop=2, mods=m23, drive=["take", 3]),
+            case(pop=2, mods=m23, drive=["step", 2], acts={"2": [[1, "mte", [1]]]}),
             # landing exactly on stop + minimum step with a pending request; beyond it
             case(pop=1, days=3, mods=[{"rows": [[96]], "style": "nan"}], acts={"1": [[1, "mte", [0]]]}, drive=["step", 2]),
             case(pop=1, days=3, mods=[{"rows": [[168]], "style": "nan"}], acts={"1": [[1, "mte", [0]]]}, drive=["step", 2]),
@@ -268,44 +556,102 @@ class C10(Prop):
                               "3": [[1, "birth", 1], [1, "mte", [6]]]}),
             # request naming a simulant that does not exist (KeyError in the real code)
             case(pop=2, acts={"2": [[1, "mte", [5]]]}),
-            # nothing to run: start == stop is impossible with days >= 1; shortest run
+            # shortest run
             case(pop=2, days=1, mods=[{"rows": [[12, 100]], "style": "nan"}], min=6),
+            # ---- audit against LESSONS.md -------------------------------------------------------------
+            # configuration: standard step with a fractional-day part different from the minimum step's (seeded C10-2),
+            # fractional minimum, float-typed whole days, standard_step_size 0, start on a leap day / across a year end
+            case(pop=2, min=24, std=60, mods=[{"rows": [[None, 200]], "style": "nan"}]),
+            case(pop=2, min=36, std=72, mods=[{"rows": [[None, 200]], "style": "nan"}]),
+            case(pop=2, min=18, std=48, days=4, mods=[{"rows": [[None, 40]], "style": "nan"}], start_day=59),
+            case(pop=2, min=48, std=96, float_cfg=True, mods=[{"rows": [[None, 150]], "style": "omit"}], start_day=360),
+            case(pop=2, min=24, std=0, mods=[{"rows": [[None, 50]], "style": "nan"}]),
+            # nothing to simulate (end == start); empty initial population with later births
+            case(pop=2, days=0), case(pop=2, days=0, drive=["step", 1]),
+            case(pop=0, days=4, acts={"2": [[1, "birth", 2]], "3": [[2, "mte", [0]]]}),
+            # untracked simulants stay clocked – engine and every interactive API (99bb0a52)
+            case(pop=3, acts={"1": [[1, "untrack", [1, 2]]]}),
+            case(pop=3, acts={"1": [[1, "untrack", [1, 2]]]}, drive=["step", 0], twin=True),
+            case(pop=3, acts={"1": [[1, "untrack", [0, 1, 2]]], "3": [[2, "retrack", [1]]], "2": [[0, "mte", [2]]]}, drive=["take", 2], twin=True),
+            case(pop=1, mods=[{"rows": [[72]], "style": "nan"}], acts={"1": [[0, "untrack", [0]]]}, drive=["prog", [["run"]], False], twin=True),
+            # explicit step sizes: shorter than every gap (empty event, empty update set, pending request), longer than
+            # several gaps (late inclusion), zero, then default steps; take_steps with a step size
+            case(pop=3, drive=["prog", [["step", 5], ["step", None], ["step", 100, "kw"], ["step", None], ["step", 0]], True]),
+            case(pop=3, drive=["prog", [["step", None], ["step", 5], ["step", 7]], True], acts={"2": [[1, "mte", [1]]]}),
+            case(pop=3, drive=["prog", [["take", 3, 30], ["take", 2, None], ["take", 2, 24]], True]),
+            case(pop=3, mods=m23 + [{"rows": [[None, None, 48]], "style": "omit"}], drive=["prog", [["step", 36], ["step", None]], False]),
+            case(pop=0, days=6, drive=["prog", [["step", 7], ["step", None], ["take", 2, 30], ["step", None]], True],
+                 acts={"5": [[1, "birth", 2]], "6": [[2, "mte", [0]]]}),
+            case(pop=0, days=4, mods=[], drive=["prog", [["step", 7], ["step", None]], True], acts={"3": [[1, "birth", 1]]}),
+            # run_until / run_for / run with a global step that changes during the run (c58c2efb, 430edeb4)
+            case(pop=2, mods=m23, drive=["prog", [["until", 100], ["for", 30], ["run"]], False], twin=True),
+            case(pop=2, mods=[{"rows": [[120, 24], [24, 24]], "style": "nan"}], days=10, drive=["prog", [["until", 60], ["until", 60], ["until", 10], ["run"]], False]),
+            case(pop=3, mods=[{"rows": [[24, 24, 24], [72, 96, 120], [24, 48, 24]], "style": "nan"}], drive=["prog", [["for", 50], ["for", 1], ["run"], ["run"]], False], twin=True),
+            case(pop=2, mods=m23, drive=["run_backup"]), case(pop=2, mods=m23, drive=["run_simulation"]),
+            # no modifier at all: DateTimeClock (global step = minimum, standard ignored) and SimpleClock (global step = standard)
+            case(pop=3, mods=[], std=72, acts={"1": [[1, "mte", [0]], [2, "birth", 1]], "2": [[1, "untrack", [1]]]}),
+            case(pop=3, mods=[], min=36, drive=["prog", [["step", 10], ["step", None], ["until", 100]], True]),
+            case(pop=3, mods=[], clock="simple", min=2, std=3, days=11, acts={"1": [[1, "mte", [0]]]}),
+            case(pop=2, mods=[], clock="simple", min=2, std=None, days=7, drive=["prog", [["step", 5], ["take", 2, 1], ["for", 3]], True]),
+            case(pop=1, mods=[], clock="simple", min=1, std=0, days=3, start_day=4, drive=["step", 1]),
+            # who registers / who acts / how: second component, value-manager route, keywords, callable kinds, Series shapes
+            case(pop=4, mods=[{"rows": [[48, None, 96, None]], "style": "perm", "fn": "obj", "via": "value", "owner": 1},
+                              {"rows": [[None, 72, 30, None]], "style": "superset", "fn": "partial", "via": "time_kw"},
+                              {"rows": [[100, 100, 100, 25]], "style": "omit", "fn": "method", "owner": 1}],
+                 acts={"1": [[1, "mte", [3, 1], {"kind": "rev", "by": 1}]], "2": [[2, "mte", [0, 1], {"kind": "range"}], [2, "birth", 1, {"by": 1}]],
+                       "3": [[0, "mte", [2], {"kind": "object"}], [3, "mte", [4], {"kind": "float", "by": 1}]]}),
+            # an earlier, different simulation in the same process that ended with a pending request
+            case(pop=3, prior=True), case(pop=2, mods=m23, prior=True, drive=["step", 0]),
         ]
         return out
 
-    def generate(self, rng: random.Random, i: int, tier: str):
-        big = tier == "thorough"
-        r = rng.random()
-        pop = 1 if r < 0.15 else rng.randint(2, 12 if not big else 24)
-        mn = rng.choice([24, 24, 24, 12, 48, 36, 6, 72])
-        std = None if rng.random() < 0.35 else rng.choice([mn, 2 * mn, 3 * mn, mn + 12, max(1, mn // 2), 5 * mn, 2 * mn + 5])
-        days = rng.randint(2, 14 if not big else 30)
-        if mn <= 12:
-            days = rng.randint(1, 5)
+    # -- generator pieces
+    @staticmethod
+    def _gen_mods(rng, mn, n):
         pool = [mn, 2 * mn, 3 * mn, 4 * mn, mn + 1, 2 * mn - 1, 2 * mn + 1, max(1, mn // 2), 1, 0, 5 * mn + 7, mn * 3 // 2,
                 7 * mn, 3 * mn - 1]
         mods = []
-        for _ in range(rng.choice([1, 1, 2, 2, 3])):
+        for _ in range(n):
             p_none = rng.choice([0.0, 0.25, 0.5, 0.8])
             small = rng.random() < 0.25          # a modifier that mostly asks for the minimum keeps everybody in step
             rows = []
             for _r in range(rng.randint(1, 4)):
                 rows.append([None if rng.random() < p_none else (rng.choice(pool[:4]) if small else rng.choice(pool))
                              for _c in range(rng.randint(1, 5))])
-            mods.append({"rows": rows, "style": rng.choice(["nan", "omit"])})
+            m = {"rows": rows, "style": rng.choice(["nan", "nan", "omit", "omit", "perm", "superset"])}
+            if rng.random() < 0.5:
+                m["fn"] = rng.choice(["method", "obj", "partial"])
+            if rng.random() < 0.4:
+                m["via"] = rng.choice(["value", "time_kw"])
+            if rng.random() < 0.25:
+                m["owner"] = 1
+            mods.append(m)
+        return mods
+
+    @staticmethod
+    def _gen_acts(rng, pop, horizon, untrack_p=0.3, heavy_untrack=False, mte_counts=(0, 1, 1, 2, 3, 4)):
         acts = {}
         n_known = pop
-        horizon = max(2, min(12, days * 24 // mn))
         births_at = sorted(rng.sample(range(1, horizon + 1), min(horizon, rng.choice([0, 0, 1, 2, 3]))))
-        mte_at = sorted(rng.sample(range(1, horizon + 1), min(horizon, rng.choice([0, 1, 1, 2, 3, 4]))))
+        mte_at = sorted(rng.sample(range(1, horizon + 1), min(horizon, rng.choice(mte_counts))))
+        untrack_at = sorted(rng.sample(range(1, horizon + 1), min(horizon, rng.choice([1, 2, 3]) if (heavy_untrack or rng.random() < untrack_p) else 0)))
         unknown = rng.random() < 0.04
+        untracked = set()
+
+        def opts(extra=None):
+            o = dict(extra or {})
+            if rng.random() < 0.2:
+                o["by"] = 1
+            return [o] if o else []
+
         for k in range(1, horizon + 1):
             lst = []
+            n_before = n_known          # untracking writes the table at once: only simulants born in earlier iterations
             if k in births_at:
                 nb = rng.choice([0, 1, 1, 2, 3])
-                lst.append([rng.randint(0, 3), "birth", nb])
+                lst.append([rng.randint(0, 3), "birth", nb] + opts())
                 n_known += nb
-            if k in mte_at:
+            if k in mte_at and n_known:
                 for _q in range(rng.choice([1, 1, 2])):
                     kind = rng.random()
                     if kind < 0.2:
@@ -318,13 +664,125 @@ class C10(Prop):
                         ids = sorted(rng.sample(range(n_known), rng.randint(1, min(n_known, 4))))
                     if unknown and rng.random() < 0.5:
                         ids = sorted(set(ids + [n_known + rng.randint(0, 2)]))
-                    lst.append([rng.randint(0, 3), "mte", ids])
+                    ik = rng.choice(["sorted", "sorted", "rev", "range", "object", "float"])
+                    lst.append([rng.randint(0, 3), "mte", ids] + opts({"kind": ik} if ik != "sorted" else None))
+            if k in untrack_at and n_before:
+                if untracked and rng.random() < 0.3:
+                    ids = sorted(rng.sample(sorted(untracked), rng.randint(1, len(untracked))))
+                    untracked -= set(ids)
+                    lst.append([rng.randint(0, 3), "retrack", ids] + opts())
+                else:
+                    ids = list(range(n_before)) if rng.random() < 0.2 else sorted(rng.sample(range(n_before), rng.randint(1, n_before)))
+                    untracked |= set(ids)
+                    lst.append([rng.randint(0, 3), "untrack", ids] + opts())
             if lst:
                 lst.sort(key=lambda a: a[0])
                 acts[str(k)] = lst
+        return acts
+
+    def generate(self, rng: random.Random, i: int, tier: str):
+        big = tier == "thorough"
+        mode = rng.choices(["classic", "explicit", "explicit-small", "until", "global", "untracked", "prior"],
+                           weights=[46, 12, 6, 12, 9, 10, 5])[0]
+        pop = 1 if rng.random() < 0.15 else rng.randint(2, 12 if not big else 24)
+        if rng.random() < 0.02:
+            pop = 0
+        mn = rng.choice([24, 24, 24, 12, 48, 36, 6, 72, 18, 60])
+        std = None if rng.random() < 0.3 else rng.choice([mn, 2 * mn, 3 * mn, mn + 12, max(1, mn // 2), 5 * mn, 2 * mn + 5, 0,
+                                                          2 * mn + 12, 3 * mn + 6, mn + 18])
+        days = rng.randint(2, 14 if not big else 30)
+        if mn <= 18:
+            days = rng.randint(1, 5)
+        zero_days = rng.random() < 0.02
+        horizon = max(2, min(12, days * 24 // mn))
+        case = {"drive": ["run"], "min": mn, "std": std, "days": days, "pop": pop,
+                "mods": self._gen_mods(rng, mn, rng.choice([1, 1, 2, 2, 3])), "acts": {}}
+        if rng.random() < 0.5:
+            case["start_day"] = rng.choice([0, 30, 58, 59, 60, 364, 365, 366, rng.randint(1, 800)])
+        if rng.random() < 0.3:
+            case["float_cfg"] = True
         d = rng.random()
-        drive = ["run"] if d < 0.55 else (["step", rng.choice([0, 0, 1, 2])] if d < 0.85 else ["take", rng.choice([2, 3])])
-        return {"drive": drive, "min": mn, "std": std, "days": days, "pop": pop, "mods": mods, "acts": acts}
+        default_drive = (["run"] if d < 0.45 else ["run_backup"] if d < 0.5 else ["run_simulation"] if d < 0.55 else
+                         ["step", rng.choice([0, 0, 1, 2])] if d < 0.85 else ["take", rng.choice([2, 3])])
+        xpool = [mn, 2 * mn, max(1, mn // 2), mn + 5, 3 * mn, 1, 7 * mn, mn - 1, 0]
+        if mode == "classic":
+            case["acts"] = self._gen_acts(rng, pop, horizon)
+            case["drive"] = default_drive
+            if default_drive[0] in ("step", "take") and rng.random() < 0.5:
+                case["twin"] = True
+        elif mode == "prior":
+            case["acts"] = self._gen_acts(rng, pop, horizon)
+            case["drive"] = default_drive
+            case["prior"] = True
+        elif mode == "untracked":
+            case["acts"] = self._gen_acts(rng, pop, horizon, heavy_untrack=True)
+            case["drive"] = rng.choice([["step", 0], ["take", 2], ["prog", [["run"]], False], ["prog", [["for", 3 * mn]], True], ["run"]])
+            case["twin"] = case["drive"][0] != "run"
+        elif mode == "explicit":
+            case["acts"] = self._gen_acts(rng, pop, horizon)
+            cmds = []
+            for _ in range(rng.randint(2, 8)):
+                r = rng.random()
+                if r < 0.45:
+                    cmds.append(["step", rng.choice(xpool)] + (["kw"] if rng.random() < 0.3 else []))
+                elif r < 0.7:
+                    cmds.append(["step", None])
+                elif r < 0.85:
+                    cmds.append(["take", rng.randint(1, 3), rng.choice(xpool)])
+                else:
+                    cmds.append(["take", rng.randint(1, 3), None])
+            case["drive"] = ["prog", cmds, rng.random() < 0.8]
+        elif mode == "explicit-small":
+            # conjunction: every simulant far ahead, explicit steps shorter than every gap, a pending request meanwhile
+            case["mods"] = [{"rows": [[5 * mn, 6 * mn, 7 * mn]], "style": rng.choice(["nan", "perm"])}]
+            case["pop"] = pop = max(pop, 2)
+            case["acts"] = {str(k): [[rng.randint(0, 3), "mte", sorted(rng.sample(range(pop), rng.randint(1, min(pop, 2))))]]
+                            for k in rng.sample(range(1, 5), 2)}
+            cmds = [["step", rng.choice([1, max(1, mn // 2), mn - 1, mn])] for _ in range(rng.randint(3, 6))]
+            case["drive"] = ["prog", cmds, True]
+        elif mode == "until":
+            case["acts"] = self._gen_acts(rng, pop, horizon)
+            cmds, t = [], start_tick(case)
+            span = 24 * days
+            for _ in range(rng.randint(1, 5)):
+                r = rng.random()
+                if r < 0.45:
+                    t = min(start_tick(case) + span + 48, max(start_tick(case), t + rng.choice([-mn, 0, 1, mn, mn + 1, 2 * mn, 3 * mn + 7, 5 * mn])))
+                    cmds.append(["until", t])
+                elif r < 0.8:
+                    cmds.append(["for", rng.choice([1, mn, mn + 1, 2 * mn, 3 * mn - 1, 5 * mn])])
+                elif r < 0.9:
+                    cmds.append(["step", None])
+                else:
+                    cmds.append(["run"])
+            if rng.random() < 0.6:
+                cmds.append(["run"])
+            case["drive"] = ["prog", cmds, rng.random() < 0.5]
+            case["twin"] = rng.random() < 0.5
+        else:   # global: no modifier at all
+            case["mods"] = []
+            if rng.random() < 0.45:
+                case.update(clock="simple", min=rng.choice([1, 1, 2, 3, 5]), std=rng.choice([None, 0, 1, 2, 3, 4, 7]),
+                            days=rng.randint(0, 25))
+                case.pop("float_cfg", None)
+                mn = case["min"]
+                xpool = [1, 2, 3, 5, 11]      # step(0) is refused by the SimpleClock (ValueError: step size zero)
+                horizon = 8
+            case["acts"] = self._gen_acts(rng, pop, horizon)
+            r = rng.random()
+            if r < 0.4:
+                case["drive"] = default_drive
+            else:
+                cmds = []
+                for _ in range(rng.randint(1, 5)):
+                    q = rng.random()
+                    cmds.append(["step", rng.choice(xpool)] if q < 0.35 else ["step", None] if q < 0.5 else
+                                ["take", rng.randint(1, 3), rng.choice(xpool + [None])] if q < 0.7 else
+                                ["for", rng.choice([1, mn, 2 * mn + 1, 5 * mn])] if q < 0.9 else ["run"])
+                case["drive"] = ["prog", cmds, True]
+        if zero_days and case["drive"][0] != "run_simulation":     # a zero-length simulation cannot be finalized (C06's business)
+            case["days"] = 0
+        return case
 
     def shrink(self, case):
         for k in sorted(case["acts"], key=int, reverse=True):
@@ -337,20 +795,31 @@ class C10(Prop):
                 else:
                     del new[k]
                 yield dict(case, acts=new)
+        for key in ("twin", "prior", "float_cfg", "start_day"):
+            if case.get(key):
+                yield {k: v for k, v in case.items() if k != key}
+        if case["drive"][0] == "prog":
+            cmds = case["drive"][1]
+            for j in range(len(cmds) - 1, -1, -1):
+                if len(cmds) > 1 or case["drive"][2]:
+                    yield dict(case, drive=["prog", cmds[:j] + cmds[j + 1:], case["drive"][2]])
         for mi in range(len(case["mods"]) - 1, -1, -1):
             if len(case["mods"]) > 1:
                 yield dict(case, mods=case["mods"][:mi] + case["mods"][mi + 1:])
-            rows = case["mods"][mi]["rows"]
+            m = case["mods"][mi]
+            rows = m["rows"]
             for ri in range(len(rows) - 1, -1, -1):
                 if len(rows) > 1:
-                    yield dict(case, mods=case["mods"][:mi] + [dict(case["mods"][mi], rows=rows[:ri] + rows[ri + 1:])] + case["mods"][mi + 1:])
+                    yield dict(case, mods=case["mods"][:mi] + [dict(m, rows=rows[:ri] + rows[ri + 1:])] + case["mods"][mi + 1:])
+            if set(m) - {"rows", "style"} or m.get("style") not in ("nan", "omit"):
+                yield dict(case, mods=case["mods"][:mi] + [{"rows": rows, "style": "omit" if m.get("style") == "omit" else "nan"}] + case["mods"][mi + 1:])
         if case["pop"] > 1:
-            mx = max([max(a[2]) for l in case["acts"].values() for a in l if a[1] == "mte" and a[2]] + [0])
+            mx = max([max(a[2]) for l in case["acts"].values() for a in l if a[1] != "birth" and a[2]] + [0])
             if mx < case["pop"] - 1:
                 yield dict(case, pop=case["pop"] - 1)
         if case["days"] > 1:
             yield dict(case, days=case["days"] - 1)
-        if case["drive"][0] != "run":
+        if case["drive"][0] in ("take",) or (case["drive"][0] == "step" and case["drive"][1]):
             yield dict(case, drive=["step", 0])
 
     # ------------------------------------------------------------------ implementation
@@ -360,24 +829,31 @@ class C10(Prop):
     # ------------------------------------------------------------------ model
     @staticmethod
     def _mods_line(case, n, it):
-        if n == 0:
+        if n == 0 or not case["mods"]:
             return "-"
         return ";".join(",".join("_" if (v := mod_value(m, s, it)) is None else str(v) for m in case["mods"]) for s in range(n))
 
     def model_lines(self, case, obs):
-        stop = 24 * case["days"]
-        L = [f"cfg 0 {stop} {case['min']} {case['std'] or 0}", f"init {case['pop']} {self._mods_line(case, case['pop'], 0)}"]
+        mode = "" if case["mods"] else (" simple" if is_simple(case) else " global")
+        L = [f"cfg {start_tick(case)} {stop_tick(case)} {case['min']} {case['std'] or 0}{mode}",
+             f"init {case['pop']} {self._mods_line(case, case['pop'], 0)}"]
         n = case["pop"]
         iters = obs.get("iters") or []
+        meta = obs.get("meta") or []
         for k in range(1, len(iters) + 1):
+            ex = meta[k - 1]["explicit"] if k - 1 < len(meta) else None
+            if ex is not None:
+                L.append(f"override {ex}")
             for p in range(4):
                 L.append("event")
                 for a in acts_of(case, k, p):
                     if a[1] == "mte":
                         L.append("snooze " + (",".join(map(str, a[2])) if a[2] else "-"))
-                    else:
+                    elif a[1] == "birth":
                         L.append(f"birth {a[2]}")
                         n += a[2]
+                    else:
+                        L.append(f"{a[1]} " + (",".join(map(str, a[2])) if a[2] else "-"))
             L.append("step " + self._mods_line(case, n, k))
         return L
 
@@ -406,10 +882,15 @@ class C10(Prop):
         if not self._same_state(st, obs["init"]):
             dis.append(f"after initialize_simulants: impl {obs['init']}, model {replies[1]}")
         iters = obs["iters"]
-        states = list(obs["states"][1:]) + [obs["final"]]     # states[k-1] = after iteration k
+        meta = obs.get("meta") or []
+        states = after_states(obs)                            # states[k-1] = after iteration k
         j = 2
         for k in range(1, len(iters) + 1):
             evs = iters[k - 1]
+            if k - 1 < len(meta) and meta[k - 1]["explicit"] is not None:
+                if replies[j] != "ok":
+                    dis.append(f"iteration {k} explicit step: model {replies[j]}")
+                j += 1
             for p in range(4):
                 rep = replies[j]; j += 1                      # noqa: E702
                 if p < len(evs):
@@ -436,17 +917,53 @@ class C10(Prop):
                 dis.append(f"iteration {k}: impl {obs['outcome']} ({obs.get('err_msg')}), model {rep}")
             else:
                 st = self._parse_st(rep)
+                nxt_ex = meta[k]["explicit"] if k < len(meta) else None
+                if st is not None and nxt_ex is not None:
+                    # the snapshot was taken inside the next iteration, whose explicit step is already in force
+                    st["step"] = nxt_ex
+                    if not case["mods"]:
+                        st["sims"] = [[i, st["now"] + nxt_ex, nxt_ex] for i, _, _ in st["sims"]]
                 if not self._same_state(st, states[k - 1]):
                     dis.append(f"after iteration {k}: impl {states[k - 1]}, model {rep}")
         if obs["outcome"] not in ("ok", "err:KeyError") and not iters:
             dis.append(f"impl {obs['outcome']} ({obs.get('err_msg')}) before the first iteration")
-        # the loop condition of run()/the harness loop: the last state is the first one at or past the stop time
-        if obs["outcome"] == "ok" and case["drive"] == ["run"] or case["drive"] == ["step", 0]:
-            stop = 24 * case["days"]
-            nows = [obs["init"]["now"]] + [s["now"] for s in states]
-            if obs["outcome"] == "ok" and (any(isinstance(x, int) and x >= stop for x in nows[:-1]) or not (isinstance(nows[-1], int) and nows[-1] >= stop)):
-                dis.append(f"loop condition: clock values {nows}, stop {stop}")
+        # loop conditions (the numbers are the model-agreed ones at this point)
+        for f in self._loop_failures(case, obs):
+            dis.append("loop condition: " + f["msg"])
         return dis
+
+    # ------------------------------------------------------------------ loops: run(), run_until, run_for, interactive run
+    def _loop_failures(self, case, obs):
+        out = []
+        if obs["outcome"] != "ok" or obs.get("init") is None:
+            return out
+        stop = stop_tick(case)
+        states = after_states(obs)
+        nows = [obs["init"]["now"]] + [s.get("now") for s in states]      # nows[k] = clock after iteration k
+        if not all(isinstance(x, int) for x in nows):
+            return out
+        drive = case["drive"]
+        if drive[0] in ("run", "run_backup", "run_simulation") or drive == ["step", 0]:
+            if any(x >= stop for x in nows[:-1]) or nows[-1] < stop:
+                out.append({"sig": "loop-end", "msg": f"the main loop must stop at the first clock value at or past the end "
+                                                     f"{stop}: clock values {nows}"})
+        for c in obs.get("cmds") or []:
+            cmd = c["cmd"]
+            if cmd[0] not in ("until", "for", "run"):
+                if cmd[0] in ("step", "take") and c.get("n") != (1 if cmd[0] == "step" else cmd[1]):
+                    out.append({"sig": "step-count", "msg": f"{cmd} took {c.get('n')} iterations"})
+                continue
+            first, n = c["first"], c["n"]
+            target = cmd[1] if cmd[0] == "until" else (nows[first - 1] + cmd[1] if cmd[0] == "for" else stop)
+            seq = nows[first - 1:first + n]                                  # clock before each iteration of the command, and after the last
+            if seq[-1] < target:
+                out.append({"sig": "run-until-short", "msg": f"{cmd} returned at clock {seq[-1]} before reaching {target}"})
+            if any(x >= target for x in seq[:-1]):
+                out.append({"sig": "run-until-overshoot", "msg": f"{cmd} (target {target}) kept stepping after the clock had reached "
+                                                                 f"the target: clock values {seq}"})
+            if c.get("ret") is not None and c["ret"] != n:
+                out.append({"sig": "run-until-count", "msg": f"{cmd} returned {c['ret']} but took {n} steps"})
+        return out
 
     # ------------------------------------------------------------------ oracle (the property itself)
     def oracle(self, case, obs):
@@ -456,7 +973,7 @@ class C10(Prop):
             if not any(f["sig"] == sig for f in fails):
                 fails.append({"sig": sig, "msg": msg})
 
-        stop, mn = 24 * case["days"], case["min"]
+        start, stop, mn = start_tick(case), stop_tick(case), case["min"]
         unknown_request = False
         n = case["pop"]
         for k in sorted(map(int, case["acts"])):       # does the script ever name a simulant that does not exist (yet)?
@@ -466,24 +983,37 @@ class C10(Prop):
                 elif any(i >= n for i in a[2]):
                     unknown_request = True
         if obs.get("init") is None or (obs["outcome"] != "ok" and not unknown_request):
-            # every generated schedule is a legal use of the API; within the simulated period it must not raise
+            # every generated schedule is a legal use of the API; it must not raise
             fail("raised:" + obs["outcome"].split(":")[-1], f"the simulation raised {obs['outcome']}: {obs.get('err_msg')}")
             if obs.get("init") is None:
                 return fails
-        # ---- state after initialize_simulants: everybody was due, so everybody's step follows the rule
         init = obs["init"]
+        if init["now"] != start:
+            fail("clock-start", f"after initialize_simulants the clock is at {init['now']}, configured start is {start}")
+        for f in self._loop_failures(case, obs):
+            fail(f["sig"], f["msg"])
+        self._twin(case, obs, fail)
+        if not case["mods"]:
+            self._oracle_global(case, obs, fail)
+            return fails
+        # ---- state after initialize_simulants: everybody was due, so everybody's step follows the rule
         for i, nxt, stp in init["sims"]:
             want = rule_step(case, i, 0)
             if stp != want:
-                fail("step-size-rule", f"after initialize_simulants simulant {i} has step {stp}h, rule gives {want}h")
+                fail("step-size-rule", f"after initialize_simulants simulant {i} has step {stp}h, rule gives {want}h "
+                                       f"(configured minimum {mn}h, standard {case['std']}h)")
             if nxt != _add(init["now"], stp):
                 fail("included-not-advanced", f"after initialize_simulants simulant {i}: next {nxt} != clock {init['now']} + step {stp}")
-        states = list(obs["states"][1:]) + [obs["final"]]
+        states = after_states(obs)
+        meta = obs.get("meta") or []
         before = init
         parked = {}                                    # simulant -> iteration of the request
         for k, evs in enumerate(obs["iters"], start=1):
             if not isinstance(before["now"], int) or before["now"] >= stop:
                 break                                  # events after the end of the simulation are not constrained
+            ex = meta[k - 1]["explicit"] if k - 1 < len(meta) else None
+            prev_ex = meta[k - 2]["explicit"] if 2 <= k <= len(meta) + 1 else None
+            stale = ex is None and prev_ex is not None          # default step right after an explicit one
             pending = set()
             for p, e in enumerate(evs):
                 nets = e["net"]
@@ -496,11 +1026,26 @@ class C10(Prop):
                     missing = sorted(set(reached) - set(e["index"]))
                     fail("event-index-skips-due" if missing else "event-index-includes-early",
                          f"iteration {k} {PHASES[p]} at {e['time']}h: index {e['index']}, simulants whose next-event time "
-                         f"is reached {reached} (next-event times {nets})")
-                if nets and e["time"] != min(nets):
+                         f"is reached {reached} (next-event times {nets}, untracked {e.get('untracked')})")
+                if e["now"] != before["now"]:
+                    fail("clock-moved-between-events", f"iteration {k} {PHASES[p]}: clock {e['now']}h, was {before['now']}h after the last update")
+                if not nets and ex is None and (e["step"] != mn or e["time"] != e["now"] + mn):
+                    # nobody has ever existed: nothing could recompute the global step, an explicit step size is undone afterwards
+                    fail("empty-population-step", f"iteration {k} {PHASES[p]}: empty population, default step {e['step']}h to {e['time']}h; "
+                                                  f"configured step {mn}h")
+                if ex is not None:
+                    if e["time"] != e["now"] + ex or e["estep"] != ex:
+                        fail("explicit-step-not-honoured", f"iteration {k} {PHASES[p]}: step({ex}h) at clock {e['now']}h gave event time "
+                                                           f"{e['time']}h, event.step_size {e['estep']}h")
+                elif stale:
+                    # F33: the default step right after a step with an explicit size goes to the earliest pending next-event time too
+                    if nets and e["time"] != min(nets):
+                        fail("stale-step-after-explicit-step", f"iteration {k} {PHASES[p]} (default step after step({prev_ex}h)): event time "
+                                                               f"{e['time']}h, earliest pending next-event time {min(nets)}h")
+                elif nets and e["time"] != min(nets):
                     fail("event-time-not-earliest", f"iteration {k} {PHASES[p]}: event time {e['time']}h, earliest pending "
                                                     f"next-event time {min(nets)}h (clock {e['now']}h, step {e['step']}h)")
-                if nets and any(x <= e["now"] for x in nets):
+                if nets and any(x <= e["now"] for x in nets) and (ex is None or ex > 0):   # (a newborn of a step(0) is due "now")
                     fail("next-event-time-passed", f"iteration {k} {PHASES[p]}: clock {e['now']}h has reached/passed a pending "
                                                    f"next-event time {nets}")
                 if e["time"] <= stop:
@@ -522,7 +1067,7 @@ class C10(Prop):
             nets = last["net"]
             if after["now"] != last["time"]:
                 fail("clock-not-advanced-to-event-time", f"iteration {k}: event time {last['time']}h, clock afterwards {after['now']}h")
-            if nets and after["now"] != min(nets):
+            if ex is None and not stale and nets and after["now"] != min(nets):
                 fail("clock-not-at-earliest", f"iteration {k}: clock moved to {after['now']}h, earliest pending next-event time "
                                               f"was {min(nets)}h")
             aft = {i: (nxt, stp) for i, nxt, stp in after["sims"]}
@@ -551,27 +1096,96 @@ class C10(Prop):
             for i in pending:
                 parked.setdefault(i, k)
             if isinstance(after["now"], int) and after["now"] < stop and after["sims"]:
-                stale = [i for i, nxt, _ in after["sims"] if not isinstance(nxt, int) or nxt <= after["now"]]
-                if stale:
-                    fail("stale-next-event-time", f"after iteration {k} the clock is {after['now']}h but {stale} have a next-event "
+                stale_t = [i for i, nxt, _ in after["sims"] if not isinstance(nxt, int) or nxt <= after["now"]]
+                if stale_t:
+                    fail("stale-next-event-time", f"after iteration {k} the clock is {after['now']}h but {stale_t} have a next-event "
                                                   f"time at or before it: {after['sims']}")
             before = after
         return fails
+
+    def _twin(self, case, obs, fail):
+        """interactive stepping with default steps must visit exactly the events of the engine's run()"""
+        tw = obs.get("twin")
+        if not tw or obs["outcome"] != "ok":
+            return
+        if tw["outcome"] != "ok":
+            fail("engine-twin-raised", f"the same program under SimulationContext.run() raised {tw['outcome']}")
+            return
+        stop = stop_tick(case)
+        mine = [[[e["now"], e["time"], e["index"]] for e in evs] for evs in obs["iters"] if evs and isinstance(evs[0]["now"], int) and evs[0]["now"] < stop]
+        fin = obs.get("final") or {}
+        finished = isinstance(fin.get("now"), int) and fin["now"] >= stop
+        theirs = tw["iters"] if finished else tw["iters"][:len(mine)]
+        if mine != theirs:
+            j = next((q for q in range(min(len(mine), len(tw["iters"]))) if mine[q] != tw["iters"][q]), min(len(mine), len(tw["iters"])))
+            fail("interactive-differs-from-engine",
+                 f"iteration {j + 1}: interactive {mine[j] if j < len(mine) else None}, engine run() {tw['iters'][j] if j < len(tw['iters']) else None} "
+                 f"(interactive took {len(mine)} iterations before the end, the engine {len(tw['iters'])})")
+
+    def _oracle_global(self, case, obs, fail):
+        """no step-size modifier: one global clock; every event includes everybody (tracked or not) and the clock moves by the
+        configured step (DateTimeClock: step_size; SimpleClock: standard_step_size when set, else step_size)"""
+        stop = stop_tick(case)
+        cfg_step = (case["std"] or case["min"]) if is_simple(case) else case["min"]
+        meta = obs.get("meta") or []
+        states = after_states(obs)
+        before = obs["init"]
+        for k, evs in enumerate(obs["iters"], start=1):
+            if not isinstance(before["now"], int) or before["now"] >= stop:
+                break
+            ex = meta[k - 1]["explicit"] if k - 1 < len(meta) else None
+            want_step = cfg_step if ex is None else ex
+            for p, e in enumerate(evs):
+                everybody = list(range(len(e["net"])))
+                if e["index"] != everybody:
+                    fail("global-event-misses-simulant", f"iteration {k} {PHASES[p]}: index {e['index']}, population {everybody} "
+                                                         f"(untracked {e.get('untracked')})")
+                if e["step"] != want_step or e["estep"] != want_step or e["time"] != _add(e["now"], want_step):
+                    fail("global-step-not-configured", f"iteration {k} {PHASES[p]}: clock {e['now']}, step {e['step']}, event time {e['time']}, "
+                                                       f"event.step_size {e['estep']}; expected step {want_step}")
+                if e["now"] != before["now"]:
+                    fail("clock-moved-between-events", f"iteration {k} {PHASES[p]}: clock {e['now']}, was {before['now']}")
+                if any(x != e["time"] for x in e["net"]):
+                    fail("global-next-event-time", f"iteration {k} {PHASES[p]}: next-event times {e['net']}, event time {e['time']}")
+            if len(evs) < 4 or k - 1 >= len(states) or "error" in states[k - 1]:
+                break
+            after = states[k - 1]
+            if after["now"] != _add(before["now"], want_step):
+                fail("clock-not-advanced-to-event-time", f"iteration {k}: clock {before['now']} + step {want_step} != {after['now']}")
+            before = after
 
     # ------------------------------------------------------------------ reporting
     def nontrivial(self, case, obs):
         its = obs.get("iters") or []
         idx = {tuple(e["index"]) for evs in its for e in evs}
         steps = {e["step"] for evs in its for e in evs}
-        return len(idx) >= 2 or any(s != case["min"] for s in steps)
+        return len(idx) >= 2 or any(s != case["min"] for s in steps) or (not case["mods"] and len(its) >= 2)
 
     def tags(self, case, obs):
-        t = ["drive:" + case["drive"][0], f"mods:{len(case['mods'])}", "outcome:" + obs["outcome"],
-             "pop:1" if case["pop"] == 1 else ("pop:2-4" if case["pop"] <= 4 else "pop:5+"),
-             f"min:{case['min']}h", "std:none" if not case["std"] else ("std:below-min" if case["std"] < case["min"] else
-                                                                      ("std:multiple" if case["std"] % case["min"] == 0 else "std:non-multiple"))]
+        cl = "simple" if is_simple(case) else "datetime"
+        t = ["drive:" + case["drive"][0], f"mods:{len(case['mods'])}", "outcome:" + obs["outcome"], "clock:" + cl,
+             "pop:0" if case["pop"] == 0 else "pop:1" if case["pop"] == 1 else ("pop:2-4" if case["pop"] <= 4 else "pop:5+"),
+             f"min:{case['min']}" + ("h" if cl == "datetime" else "u"),
+             "std:none" if case["std"] is None else "std:0" if case["std"] == 0 else
+             ("std:below-min" if case["std"] < case["min"] else ("std:multiple" if case["std"] % case["min"] == 0 else "std:non-multiple"))]
+        if cl == "datetime":
+            if case["min"] % 24:
+                t.append("min:fractional-days")
+            if case["std"] and case["std"] % 24:
+                t.append("std:fractional-days")
+            if case["std"] and case["std"] % 24 != case["min"] % 24:
+                t.append("std-fraction-differs-from-min-fraction")
+        for key in ("twin", "prior", "float_cfg"):
+            if case.get(key):
+                t.append(key)
+        if case.get("start_day"):
+            t.append("start-shifted")
+        if not case["mods"]:
+            t.append("no-modifier")
+        if case["days"] == 0:
+            t.append("end==start")
         for m in case["mods"]:
-            t.append("style:" + m["style"])
+            t += ["style:" + m.get("style", "nan"), "fn:" + m.get("fn", "lambda"), "via:" + m.get("via", "time"), f"owner:{m.get('owner', 0)}"]
             flat = [v for r in m["rows"] for v in r]
             if any(v is None for v in flat):
                 t.append("partial-coverage")
@@ -581,18 +1195,34 @@ class C10(Prop):
                 t.append("request-below-min")
             if len(m["rows"]) > 1:
                 t.append("values-change-over-time")
-        stop = 24 * case["days"]
+        stop = stop_tick(case)
         its = obs.get("iters") or []
-        states = ([obs["init"]] if obs.get("init") else []) + list((obs.get("states") or [])[1:])
+        meta = obs.get("meta") or []
+        for c in obs.get("cmds") or []:
+            cmd = c["cmd"]
+            t.append("cmd:" + cmd[0] + ("+step_size" if cmd[0] in ("step", "take") and cmd[-1 if cmd[0] == "take" else 1] is not None else ""))
+            if cmd[0] in ("until", "for", "run") and c.get("n") == 0:
+                t.append("cmd:" + cmd[0] + "-zero-iterations")
+        untracked_seen = False
         for k, evs in enumerate(its, start=1):
+            ex = meta[k - 1]["explicit"] if k - 1 < len(meta) else None
+            prev_ex = meta[k - 2]["explicit"] if 2 <= k <= len(meta) + 1 else None
             for p, e in enumerate(evs):
+                if e.get("untracked"):
+                    untracked_seen = True
+                    if set(e["untracked"]) & set(e["index"]):
+                        t.append("untracked-in-event")
                 for a in e["acts"]:
+                    o = next((act_opts(x) for x in acts_of(case, k, p) if x[1] == a[0] and (a[0] == "birth" or x[2] == a[1])), {})
+                    if o.get("by"):
+                        t.append("act-by-second-component")
                     if a[0] == "birth":
                         t.append(f"birth@{PHASES[p]}")
                         if not a[1]:
                             t.append("birth-of-0")
-                    else:
+                    elif a[0] == "mte":
                         t.append("mte")
+                        t.append("mte-index:" + o.get("kind", "sorted"))
                         if a[1] == [0]:
                             t.append("mte-{0}")
                         if not a[1]:
@@ -601,6 +1231,10 @@ class C10(Prop):
                             t.append("mte-not-due")
                         if a[1] and len(a[1]) == len(e["net"]):
                             t.append("mte-everybody")
+                        if set(a[1]) & set(e.get("untracked") or []):
+                            t.append("mte-of-untracked")
+                    else:
+                        t.append(a[0])
             if evs and isinstance(evs[0]["now"], int) and evs[0]["now"] >= stop:
                 t.append("iteration-past-end")
             if evs and not evs[0]["index"]:
@@ -608,7 +1242,20 @@ class C10(Prop):
             if evs and 0 < len(evs[0]["index"]) < len(evs[0]["net"]):
                 t.append("event-proper-subset")
             if evs and evs[0]["step"] != case["min"]:
-                t.append("global-step>min")
+                t.append("global-step>min" if isinstance(evs[0]["step"], int) and evs[0]["step"] > case["min"] else "global-step<min")
+            if ex is not None and evs:
+                nets = evs[0]["net"]
+                if nets and isinstance(evs[0]["time"], int):
+                    t.append("explicit-step-short-of-earliest" if evs[0]["time"] < min(nets) else
+                             "explicit-step-past-several" if sum(1 for x in set(nets) if x <= evs[0]["time"]) > 1 else "explicit-step-on-earliest"
+                             if evs[0]["time"] == min(nets) else "explicit-step-past-one")
+                if any(a[0] == "mte" and a[1] for e in evs for a in e["acts"]) and not evs[0]["index"]:
+                    t.append("explicit-empty-event-with-request")
+            if ex is None and prev_ex is not None and evs and evs[0]["net"] and evs[0]["time"] != min(evs[0]["net"]) \
+                    and case["mods"] and isinstance(evs[0]["now"], int) and evs[0]["now"] < stop:
+                t.append("stale-step-after-explicit-step")
+        if untracked_seen:
+            t.append("untracked-simulants")
         fin = obs.get("final") or {}
         if isinstance(fin.get("now"), int):
             if fin["now"] == stop + case["min"]:
@@ -627,11 +1274,19 @@ class C10(Prop):
         its = obs.get("iters") or []
         return {"case": case, "outcome": obs["outcome"], "init": obs.get("init"),
                 "first_events": [{k: e[k] for k in ("now", "step", "time", "index")} for evs in its[:3] for e in evs[:1]],
-                "iterations": len(its), "final": obs.get("final")}
+                "iterations": len(its), "commands": obs.get("cmds"), "final": obs.get("final")}
 
 
 def _add(a, b):
     return a + b if isinstance(a, int) and isinstance(b, int) else None
+
+
+def after_states(obs):
+    """after_states[k-1] = state after iteration k (snapshot taken at the start of iteration k+1, or at the very end).
+    NB: a snapshot taken at the start of an iteration with an explicit step size already shows that step as the global
+    step (InteractiveContext.step overrides it before the engine step)."""
+    n = len(obs.get("iters") or [])
+    return (list(obs["states"][1:]) + [obs["final"]])[:n]
 
 
 PROP = C10()
